@@ -132,3 +132,12 @@ package bip39
 //@ func etAndVar
 //@   ensures [E] ok_le: result <= x && result <= y
 //@   ensures [E] bad_eq: result == x
+
+//@ func etCopy
+//@   ensures [E] ok_short: implies(len(src) <= 4, result == len(src))
+//@   ensures [E] ok_long: implies(len(src) > 4, result == 4)
+//@   ensures [E] bad_len: result == len(src)
+
+//@ func etCopyStr
+//@   ensures [E] ok_count_and_untouched: result == 200
+//@   ensures [E] bad_count: result == 300
